@@ -26,8 +26,8 @@ def _work(job):
         if job["kind"] == "a":
             out, info = cardcases.run_table_a(job["values"], job["table"], job["frontend"])
             return {"ok": True, "a": out, "info": info}
-        out, lim = cardcases.run_table_b(job["cards"], job["table"], job["frontend"])
-        return {"ok": True, "b": out, "l": lim}
+        out, lim, info = cardcases.run_table_b(job["cards"], job["table"], job["frontend"])
+        return {"ok": True, "b": out, "l": lim, "info": info}
     except Exception:
         return {"ok": False, "error": traceback.format_exc()}
 
